@@ -446,7 +446,52 @@ def s9(ctx, rep):
             rep.items.append(i)
 
 
+def s4_decision(ctx, rep):
+    """HyperbandScheduler.on_trial_result: a trial the rung system does not let continue is PAUSED if the rung system resumes trials
+    and the trial is below max_t, STOPPED otherwise, and its record is released either way; nothing else changes the decision"""
+    from .common import dom_guard, call_nodes
+    P = ctx.P
+    s_ = P.method("HyperbandScheduler", "on_trial_result")
+    cs = cfg_of(s_)
+    tcv = vars_assigned_from(s_, lambda v: isinstance(v, ast.Subscript) and U(v.slice) == "'task_continues'")
+    if len(tcv) != 1:
+        raise AnchorError("HyperbandScheduler.on_trial_result: `task_continues = task_info['task_continues']` not found")
+    tc = tcv[0]
+    for dec in ("STOP", "PAUSE"):
+        nodes = [n for n in cs.nodes if n.kind == "stmt" and isinstance(n.ast, ast.Assign) and U(n.ast.value) == f"SchedulerDecision.{dec}"]
+        ok = len(nodes) == 1
+        why = f"{len(nodes)} assignment(s) of {dec}"
+        if ok:
+            at = set(dom_guard(ctx, s_, nodes[0].id))
+            no_cont = any(a[0] == "truth" and (a[1] == tc or a[1].endswith("['task_continues']")) and a[2] is False for a in at)
+            if dec == "STOP":
+                arm = any(a[0] == "or" and "does_pause_resume" in repr(a) and "self.max_t" in repr(a) and
+                          any(p_[0] == "truth" and p_[2] is False for grp in a[1] for p_ in grp) and
+                          any(p_[0] == "le" and p_[1] == "self.max_t" for grp in a[1] for p_ in grp) for a in at)
+            else:
+                arm = any(a[0] == "truth" and "does_pause_resume" in a[1] and a[2] is True for a in at) and \
+                    any(a[0] == "lt" and a[2] == "self.max_t" for a in at)
+            ok = no_cont and arm
+            why = f"guarded by {sorted(map(str, at))}"
+        rep.put(ok, "S4", "guarded_by", f"HyperbandScheduler.on_trial_result: {dec} | the trial may not continue and " +
+                ("the rung system does not resume trials or max_t is reached" if dec == "STOP" else "the rung system resumes trials and max_t is not reached"),
+                s_, nodes[0].ast if nodes else None, "", why + ": a trial at its rung level is stopped instead of paused (it can never be promoted), paused at max_t, or "
+                "a trial that may continue is taken off its worker")
+    cl = [n for n, c in call_nodes(ctx, s_, lambda c: fn_name(c) == "_cleanup_trial")]
+    common_guard = None
+    for dec in ("STOP", "PAUSE"):
+        nd_ = [n for n in cs.nodes if n.kind == "stmt" and isinstance(n.ast, ast.Assign) and U(n.ast.value) == f"SchedulerDecision.{dec}"]
+        if len(nd_) == 1:
+            g_ = set(dom_guard(ctx, s_, nd_[0].id))
+            common_guard = g_ if common_guard is None else common_guard & g_
+    okc = len(cl) == 1 and common_guard is not None and set(dom_guard(ctx, s_, cl[0])) == common_guard and \
+        any(a[0] == "truth" and (a[1] == tc or a[1].endswith("['task_continues']")) and a[2] is False for a in common_guard)
+    rep.put(okc, "S4", "guarded_by", "HyperbandScheduler.on_trial_result: the trial's record is released | it may not continue (paused or stopped alike)", s_, None, "",
+            "the rung system keeps a running-record of a trial that was paused / stopped (or loses that of a running one)")
+
+
 def run(ctx, rep, tier="quick"):
+    s4_decision(ctx, rep)
     from . import c03
     c03.bracket_offset(ctx, rep, "S3")
     s1(ctx, rep)
